@@ -63,7 +63,8 @@ class GetData(Contract):
         bodies = [{"data": {"a": 1}}, {"data": None}, {"data": {}}, {"errors": []}, {"data": {"a": 1}, "errors": []}, {"data": {"a": 1}, "errors": None},
                   {"errors": [e("boom")]}, {"data": {"partial": 1}, "errors": [e("boom", path=["a", 0], locations=[{"line": 1, "column": 2}])]},
                   {"errors": [e("same", path=["a"]), e("same", path=["b"]), e("same", path=["a"])]},
-                  {"data": None, "errors": [e("x", extensions={"code": "C"}), e("y")]}, {}, {"other": 1}, [], [1], "text", 1, None, True]
+                  {"data": None, "errors": [e("x", extensions={"code": "C"}), e("y")]},
+                  {"errors": [e("nulls", locations=None, path=None, extensions=None), e("vendor", errorType="T", code=7)]}, {}, {"other": 1}, [], [1], "text", 1, None, True]
         out = []
         for status in (200, 201, 204, 299, 199, 300, 301, 400, 404, 500, 503):
             for b in bodies if status in (200, 201, 404) else bodies[:2] + bodies[7:9]:
